@@ -262,7 +262,7 @@ func TestC07(t *testing.T) {
 		i++
 	})
 	r.exhaustive(fmt.Sprintf("every assignment of per-item scripts (exec ok/fail per attempt for budget+1 attempts, fallback ok/err) for n<=%d items, budget<=2, c in 0..3, with/without fallback, two release orders: %d cases", r.pick(2, 3), n))
-	g := batchGen{MinN: 1, MaxN: 32, MaxC: 8, Modes: []int{0, 1}, MaxBudget: 4, PFail: 450, PResErr: 40, PPreErr: 40, Fb: true, Gated: 1, MaxSched: 120, Rerun: true}
+	g := batchGen{MinN: 1, MaxN: 32, MaxC: 8, Modes: []int{0, 1}, MaxBudget: 4, PFail: 450, PResErr: 40, PPreErr: 40, Fb: true, Gated: 1, MaxSched: 120, Rerun: true, Waits: true}
 	rapidPart(r, "rand-gated", r.pick(2000, 30000), g.gen, checkC07)
 	g2 := g
 	g2.Gated = 0
